@@ -148,7 +148,7 @@ class RouterInfoCache:
         other_routers = set()
         for dnet in dnets:
             other_router = self.path_info.get((snet, dnet), None)
-            if other_router and (other_router is not existing_router_info):
+            if other_router:
                 other_routers.add(other_router)
 
         # remove the dnets from other router(s) and paths
